@@ -100,8 +100,8 @@ class FakeSubmitExecutor(_FakeBase):
 class FakeApplyAsyncExecutor(_FakeBase):
     """ipyparallel-view style: apply_async(fn, *args, **kwargs) -> .get()"""
 
-    def apply_async(self, fn, *args, **kwargs):
-        return self._add(fn, args, kwargs, "get")
+    def apply_async(self, f, *args, **kwargs):      # (ipyparallel's names)
+        return self._add(f, args, kwargs, "get")
 
 
 # ------------------------------------------------------------------ run_case
@@ -293,6 +293,9 @@ def run_case_pool(case):
 
 # ---------------------------------------------------------------- strategies
 
+AWKWARD_NAMES = ["fn", "executor", "args", "kwds", "kwargs", "self", "cases",
+                 "combos", "constants", "func", "f", "pool", "shuffle",
+                 "verbosity", "results", "key", "i"]
 IN_PROCESS = ["seq", "seq", "fake_submit", "fake_submit", "fake_apply_async",
               "thread_cf", "thread_mp"]
 REAL_POOLS = ["num_workers", "process_cf", "process_mp", "num_workers",
@@ -306,6 +309,12 @@ def strategy(draw, types=IN_PROCESS, max_args=5):
         ["dict", "dict", "tuple_pairs", "list_pairs"]
         + (["single_pair"] if len(args) == 1 else [])))
     conts = [draw(st.sampled_from(gens.container_choice(v))) for _, v in args]
+    if draw(st.sampled_from([False] * 7 + [True])):
+        # argument names that the package itself uses for parameters of its
+        # helpers (a function being swept over functions has an ``fn``...)
+        awkward = draw(st.permutations(AWKWARD_NAMES))
+        for i in range(min(len(args), draw(st.integers(1, 2)))):
+            args[i][0] = awkward[i]
     consts = draw(gens.constants())
     for nm, _ in args:
         consts.pop(nm, None)
